@@ -5,6 +5,7 @@ import os
 from concurrent.futures import ThreadPoolExecutor
 
 import common
+import sets
 import trace
 from common import CheckError
 
@@ -14,6 +15,8 @@ SPECDIR = os.path.join(common.SPEC, "wlearner")
 
 def run(rep, tier):
     work = common.workdir("C10")
+    # the sample-selection bookkeeping underneath (cluster_t / testing marks): SampleSets.tla, every edge replayed on the real objects
+    sets.run(rep, "C10", tier)
     exe = common.build_harness("wlearner_driver")["wlearner_driver"]
     nproc, ne, na = (8, 300, 250) if tier == "quick" else (16, 3000, 2500)
 
